@@ -223,7 +223,8 @@ class OptimizeFaults:
             if me.k is not None and me.count == me.k:
                 if me.variant == 'B':
                     orig(self_o, *a)
-                return z3.unknown
+                # a fresh result object, as the solver itself produces (not the module-level constant)
+                return z3.CheckSatResult(z3.Z3_L_UNDEF)
             return orig(self_o, *a)
         z3.Optimize.check = check
 
